@@ -8,6 +8,14 @@
 //	    body and resolver log equal those of an API *without* the feature executing t,
 //
 // and, model-free, (3) the storage invariant: every stored pair is (sha256(text), text).
+//
+// Every request reaches the driver as the Go-level value tree of Request.Extensions (`greq`); the
+// driver applies the Lean abstraction Go.abs (the one the bridge theorem generated_step_eq_model is
+// stated with) and echoes it, and the echo is compared with the label written by hand next to every
+// extension variant. direct.go adds direct calls of apifu.PersistedQueryExtension with Go values that
+// JSON never produces and with a parsed Document; EVICT steps make the storage lose an entry. Both
+// API worlds (with and without storage) set every other Config knob to something observable
+// (Features, costs, Execute hook / RequestInfo, operationName, variables, request context).
 package main
 
 import (
@@ -22,6 +30,7 @@ import (
 	"net/url"
 	"os"
 	"reflect"
+	"sort"
 	"strings"
 
 	apifu "github.com/ccbrown/api-fu"
@@ -39,11 +48,27 @@ type Step struct {
 	// what PersistedQueryExtension sees after decoding (the model's input)
 	ModelExt string `json:"model_ext"` // S-expression: none | (ext one|other (str "…")|nostr)
 	ExtKind  string `json:"ext_kind"`
+	// the Go-level value of Request.Extensions in the driver's notation ("" = derive it from ext_json)
+	GoExt string `json:"go_ext,omitempty"`
+	// direct: apifu.PersistedQueryExtension is called as a function (Transport "DIRECT"); has_doc: Request.Document != nil
+	HasDoc bool `json:"has_doc,omitempty"`
+	// operationName / variables (JSON text) sent with the request ("" = absent)
+	Op   string `json:"op,omitempty"`
+	Vars string `json:"vars,omitempty"`
+	// Transport "EVICT": the storage loses what it holds under this key (hex) — a best-effort backend
+	Evict string `json:"evict,omitempty"`
 }
 
 var texts = []string{"{a}", "{b}", "{a b}", "{n(x:3)}", "{ nope }", "{a", "query Q{b} query R{a}",
 	// texts that differ only in insignificant characters are different documents with different digests
-	" {a}\n", "{b} ", "\t{a b}", " ", "\n\t", "\ufeff{a}", "{a},", "#c\n{b}"}
+	" {a}\n", "{b} ", "\t{a b}", " ", "\n\t", "\ufeff{a}", "{a},", "#c\n{b}",
+	// texts whose outcome depends on the other Config knobs (feature set, operation name, variables, cost)
+	"{f}", "{a f}", knobText}
+
+// knobText needs operationName and variables to execute.
+const knobText = "query Q($x:Int){n(x:$x)} query R{a f}"
+
+type ctxKey struct{}
 
 func sha(t string) string { h := sha256.Sum256([]byte(t)); return hex.EncodeToString(h[:]) }
 
@@ -152,15 +177,34 @@ type storage struct {
 	calls []call
 }
 
+// key32: the storage keeps its entries under fixed-size keys (a [32]byte array, as a backend with a
+// BINARY(32) key column would): a shorter key is zero-padded, a longer one cut. For the digests the
+// unchanged extension passes (always exactly 32 bytes) this is the plain map of the model; it is
+// what makes a missing length check on the client's key observable as a wrong document.
+func key32(hash []byte) string {
+	var k [sha256.Size]byte
+	copy(k[:], hash)
+	return string(k[:])
+}
+
 func (s *storage) GetPersistedQuery(ctx context.Context, hash []byte) string {
 	s.calls = append(s.calls, call{"get", "", hex.EncodeToString(hash)})
-	return s.m[string(hash)]
+	return s.m[key32(hash)]
 }
 
 func (s *storage) PersistQuery(ctx context.Context, query string, hash []byte) {
 	s.calls = append(s.calls, call{"put", query, hex.EncodeToString(hash)})
-	s.m[string(hash)] = query
+	s.m[key32(hash)] = query
 }
+
+// zeroTailText is a valid document whose digest ends in a zero byte (its 31-byte prefix, zero-padded, is the digest itself).
+var zeroTailText = func() string {
+	for n := 0; ; n++ {
+		if t := fmt.Sprintf("{a} #%d", n); strings.HasSuffix(sha(t), "00") {
+			return t
+		}
+	}
+}()
 
 type world struct {
 	api      *apifu.API
@@ -187,6 +231,25 @@ func newWorld(withStorage bool) *world {
 			x, _ := ctx.Arguments["x"].(int)
 			return x * 2, nil
 		}})
+	// every other Config knob is set to something observable, identically with and without storage:
+	// the persisted-query feature must not change what any of them does to a request
+	cfg.AddQueryField("f", &graphql.FieldDefinition{Type: graphql.StringType, RequiredFeatures: graphql.NewFeatureSet("beta"), Cost: graphql.FieldResolverCost(7),
+		Resolve: func(ctx graphql.FieldContext) (interface{}, error) {
+			*log = append(*log, "f")
+			return "feat", nil
+		}})
+	cfg.Features = func(ctx context.Context) graphql.FeatureSet { return graphql.NewFeatureSet("beta", "gamma") }
+	cfg.DefaultFieldCost = graphql.FieldCost{Resolver: 3}
+	cfg.Execute = func(r *graphql.Request, info *apifu.RequestInfo) *graphql.Response {
+		feats := []string{}
+		for f := range r.Features {
+			feats = append(feats, f)
+		}
+		sort.Strings(feats)
+		vars, _ := json.Marshal(r.VariableValues)
+		*log = append(*log, fmt.Sprintf("execute: cost=%d operationName=%q features=%v variables=%s context=%v document=%v", info.Cost, r.OperationName, feats, vars, r.Context.Value(ctxKey{}), r.Document != nil))
+		return graphql.Execute(r)
+	}
 	if withStorage {
 		w.st = &storage{m: map[string]string{}}
 		cfg.PersistedQueryStorage = w.st
@@ -204,6 +267,10 @@ type observed struct {
 	Body     string
 	Resolved []string
 	Calls    []call
+	// direct mode
+	Direct       bool
+	Executed     []execRec
+	InputMutated bool
 }
 
 func (w *world) serve(s Step) (o observed) {
@@ -220,6 +287,12 @@ func (w *world) serve(s Step) (o observed) {
 		if s.ExtJSON != "" {
 			q.Set("extensions", s.ExtJSON)
 		}
+		if s.Op != "" {
+			q.Set("operationName", s.Op)
+		}
+		if s.Vars != "" {
+			q.Set("variables", s.Vars)
+		}
 		req = httptest.NewRequest("GET", "/graphql?"+q.Encode(), nil)
 	} else {
 		parts := []string{}
@@ -230,9 +303,17 @@ func (w *world) serve(s Step) (o observed) {
 		if s.ExtJSON != "" {
 			parts = append(parts, `"extensions":`+s.ExtJSON)
 		}
+		if s.Op != "" {
+			j, _ := json.Marshal(s.Op)
+			parts = append(parts, `"operationName":`+string(j))
+		}
+		if s.Vars != "" {
+			parts = append(parts, `"variables":`+s.Vars)
+		}
 		req = httptest.NewRequest("POST", "/graphql", bytes.NewReader([]byte("{"+strings.Join(parts, ",")+"}")))
 		req.Header.Set("Content-Type", "application/json")
 	}
+	req = req.WithContext(context.WithValue(req.Context(), ctxKey{}, "request-scoped value"))
 	rec := httptest.NewRecorder()
 	func() {
 		defer func() {
@@ -274,12 +355,15 @@ type harness struct {
 	refCache map[string]observed
 }
 
-func (h *harness) reference(text string) observed {
-	if o, ok := h.refCache[text]; ok {
+// reference: what the API without the feature answers to this text sent with the same operation
+// name and variables as the step (response and the log of the Execute hook and the resolvers).
+func (h *harness) reference(text string, s Step) observed {
+	key := text + "\x00" + s.Op + "\x00" + s.Vars
+	if o, ok := h.refCache[key]; ok {
 		return o
 	}
-	o := h.disabled.serve(Step{Transport: "POST", Query: text})
-	h.refCache[text] = o
+	o := h.disabled.serve(Step{Transport: "POST", Query: text, Op: s.Op, Vars: s.Vars})
+	h.refCache[key] = o
 	return o
 }
 
@@ -291,7 +375,18 @@ func (h *harness) playHistory(hist []Step) (what, kind string) {
 	if h.model != nil {
 		lines := []string{"(reset)"}
 		for _, s := range hist {
-			lines = append(lines, fmt.Sprintf("(req %s %s)", hx.A(s.Query).String(), s.ModelExt))
+			if s.Transport == "EVICT" {
+				lines = append(lines, hx.N("evict", hx.A(s.Evict)).String())
+				continue
+			}
+			ge, doc := s.GoExt, "nodoc"
+			if ge == "" {
+				ge = extSexpOfJSON(s.ExtJSON)
+			}
+			if s.HasDoc {
+				doc = "doc"
+			}
+			lines = append(lines, fmt.Sprintf("(greq %s %s %s)", hx.A(s.Query).String(), doc, ge))
 		}
 		var err error
 		replies, err = h.model.AskAll(lines)
@@ -302,9 +397,34 @@ func (h *harness) playHistory(hist []Step) (what, kind string) {
 	}
 	registered := map[string]bool{}
 	for i, s := range hist {
-		o := w.serve(s)
 		h.run.Count("transport:" + s.Transport)
+		if s.Transport == "EVICT" {
+			if k, err := hex.DecodeString(s.Evict); err == nil {
+				if _, held := w.st.m[key32(k)]; held {
+					h.run.Count("evict:held")
+				}
+				delete(w.st.m, key32(k))
+			}
+			if h.model != nil && replies[i] != "ok" {
+				return fmt.Sprintf("step %d: unexpected model reply %q", i, replies[i]), "correspondence"
+			}
+			continue
+		}
 		h.run.Count("ext:" + s.ExtKind)
+		if s.Transport == "DIRECT" {
+			if s.GoExt == "" {
+				s.GoExt = extSexpOfJSON(s.ExtJSON)
+			}
+			rep := ""
+			if h.model != nil {
+				rep = replies[i]
+			}
+			if what, kind := h.directStep(i, s, w.direct(s), w, registered, rep); what != "" {
+				return what, kind
+			}
+			continue
+		}
+		o := w.serve(s)
 		if o.Status == -1 {
 			return fmt.Sprintf("step %d: %s", i, o.Body), "crash"
 		}
@@ -333,11 +453,11 @@ func (h *harness) playHistory(hist []Step) (what, kind string) {
 			hs, _ := pqm["sha256Hash"].(string)
 			key, _ := hex.DecodeString(hs)
 			ok := false
-			if bytes.Equal(key, func() []byte { d := sha256.Sum256(nil); return d[:] }()) && o.Body == h.reference("").Body {
+			if bytes.Equal(key, func() []byte { d := sha256.Sum256(nil); return d[:] }()) && o.Body == h.reference("", s).Body && reflect.DeepEqual(o.Resolved, h.reference("", s).Resolved) {
 				ok = true
 			}
 			for t := range registered {
-				if d := sha256.Sum256([]byte(t)); bytes.Equal(d[:], key) && o.Body == h.reference(t).Body && reflect.DeepEqual(o.Resolved, h.reference(t).Resolved) {
+				if d := sha256.Sum256([]byte(t)); bytes.Equal(d[:], key) && o.Body == h.reference(t, s).Body && reflect.DeepEqual(o.Resolved, h.reference(t, s).Resolved) {
 					ok = true
 				}
 			}
@@ -350,7 +470,7 @@ func (h *harness) playHistory(hist []Step) (what, kind string) {
 		}
 		if s.Query != "" {
 			// a request that supplies text executes the supplied text, whatever hash it claims
-			ref := h.reference(s.Query)
+			ref := h.reference(s.Query, s)
 			if o.Body != ref.Body || o.Status != ref.Status || !reflect.DeepEqual(o.Resolved, ref.Resolved) {
 				return fmt.Sprintf("step %d: request supplying text %q did not execute that text: got %d %s (resolvers %v), the text alone gives %d %s (resolvers %v)", i, s.Query, o.Status, o.Body, o.Resolved, ref.Status, ref.Body, ref.Resolved), "property"
 			}
@@ -364,7 +484,7 @@ func (h *harness) playHistory(hist []Step) (what, kind string) {
 		}
 		if s.ModelExt == "none" || strings.HasPrefix(s.ModelExt, "(ext other") {
 			// behaves exactly as if the feature were disabled
-			ref := h.reference(s.Query)
+			ref := h.reference(s.Query, s)
 			if o.Body != ref.Body || o.Status != ref.Status || !reflect.DeepEqual(o.Resolved, ref.Resolved) || len(o.Calls) != 0 {
 				return fmt.Sprintf("step %d: request without a version-1 extension differs from the disabled behaviour: got %d %s calls=%v, disabled gives %d %s", i, o.Status, o.Body, o.Calls, ref.Status, ref.Body), "property"
 			}
@@ -374,17 +494,16 @@ func (h *harness) playHistory(hist []Step) (what, kind string) {
 			continue
 		}
 		x, err := hx.ParseSexp(replies[i])
-		if err != nil || !x.IsList || len(x.List) != 3 {
+		if err != nil || !x.IsList || len(x.List) != 4 {
 			return fmt.Sprintf("step %d: unexpected model reply %q", i, replies[i]), "correspondence"
 		}
-		var mcalls []call
-		for _, c := range x.List[2].List {
-			if c.List[0].Atom == "get" {
-				mcalls = append(mcalls, call{"get", "", c.List[1].Atom})
-			} else {
-				mcalls = append(mcalls, call{"put", c.List[1].Atom, c.List[2].Atom})
-			}
+		if s.GoExt == "" {
+			s.GoExt = extSexpOfJSON(s.ExtJSON)
 		}
+		if what := absMismatch(i, s, x.List[3]); what != "" {
+			return what, "correspondence"
+		}
+		mcalls := modelCalls(x.List[2])
 		if len(mcalls) != len(o.Calls) || (len(mcalls) > 0 && !reflect.DeepEqual(mcalls, o.Calls)) {
 			return fmt.Sprintf("step %d: storage calls differ: implementation %v, model %v", i, o.Calls, mcalls), "correspondence"
 		}
@@ -395,7 +514,7 @@ func (h *harness) playHistory(hist []Step) (what, kind string) {
 			continue
 		}
 		t := x.List[1].List[1].Atom
-		ref := h.reference(t)
+		ref := h.reference(t, s)
 		if nf && !isNotFound(ref.Body) {
 			return fmt.Sprintf("step %d: model executes %q, implementation answered NotFound", i, t), "correspondence"
 		}
@@ -475,7 +594,7 @@ func main() {
 			run.Violate("correspondence", "the Lean SHA-256 disagrees with crypto/sha256: "+bad, "", true, bad)
 		}
 	}
-	run.SetRule("histories of requests {GET,POST} × {no text, 7 texts (valid, invalid, multi-operation)} × 28 extension spellings (incl. differently-cased member names) against one recording storage; distinct = distinct history; non-trivial = contains a version-1 registration and a version-1 hash-only lookup")
+	run.SetRule("histories of requests {GET, POST, direct call of PersistedQueryExtension} × {no text, 15 texts (valid, invalid, multi-operation, whitespace-bearing), parsed document present} × 29 JSON extension spellings + 11 Go-level extension kinds (int/float64/int64/other dynamic types, nil and typed-nil maps), interleaved with evictions from the storage; distinct = distinct history; non-trivial = contains a version-1 registration and a version-1 hash-only lookup")
 
 	if run.Replay != "" {
 		var hist []Step
@@ -507,7 +626,53 @@ func main() {
 		if forceQ > 0 {
 			q = pool[forceQ-1]
 		}
-		return Step{Transport: hx.Pick(r, []string{"GET", "POST"}), Query: q, ExtJSON: ej, ModelExt: me, ExtKind: v.kind}
+		st := Step{Transport: hx.Pick(r, []string{"GET", "POST"}), Query: q, ExtJSON: ej, ModelExt: me, ExtKind: v.kind}
+		// operation name and variables travel next to the text / the hash and must reach the executor unchanged
+		usesKnob := q == knobText || (q == "" && len(pool) > 0 && pool[0] == knobText)
+		if usesKnob {
+			st.Op = hx.Pick(r, []string{"Q", "Q", "R", ""})
+			st.Vars = hx.Pick(r, []string{`{"x":4}`, `{"x":4}`, ""})
+		} else if r.Chance(1, 10) {
+			st.Op = "Nope"
+		}
+		return st
+	}
+	dvs := directVariants()
+	mkDirect := func(r *hx.Rand, pool []string, di int, forceQ int, hasDoc bool) Step {
+		ext, label := dvs[di].make(r, pool)
+		q := ""
+		if forceQ > 0 {
+			q = pool[forceQ-1]
+		}
+		return Step{Transport: "DIRECT", Query: q, ModelExt: label, ExtKind: dvs[di].kind, GoExt: valueSexp(ext).String(), HasDoc: hasDoc}
+	}
+	// hand-picked: a registered text whose digest ends in a zero byte, then look-ups under keys of the wrong length
+	for _, tr := range []string{"GET", "POST", "DIRECT"} {
+		d := sha(zeroTailText)
+		for _, key := range []string{d[:62], d[:60], d + "00", d + "ab", d + d, strings.ToUpper(d[:62]), d} {
+			mkS := func(q, hash string) Step {
+				if tr == "DIRECT" {
+					return Step{Transport: tr, Query: q, ModelExt: lbl("one", hash), ExtKind: "zero-tail", GoExt: valueSexp(pqMap(1, hash)).String()}
+				}
+				ej, me := strHash("1", hash)
+				return Step{Transport: tr, Query: q, ExtJSON: ej, ModelExt: me, ExtKind: "zero-tail"}
+			}
+			h.check([]Step{mkS(zeroTailText, d), mkS("", key)})
+		}
+	}
+	// hand-picked: texts whose outcome depends on the other Config knobs (feature set, cost, operation name,
+	// variables, request context), in the spellings text only / text + hash / hash only / unknown version
+	for _, tr := range []string{"GET", "POST"} {
+		for _, c := range []struct{ text, op, vars string }{{"{f}", "", ""}, {"{a f}", "", ""}, {knobText, "Q", `{"x":4}`}, {knobText, "R", ""}, {knobText, "", ""}} {
+			mkS := func(q, version string) Step {
+				ej, me := strHash(version, sha(c.text))
+				return Step{Transport: tr, Query: q, ExtJSON: ej, ModelExt: me, ExtKind: "knobs", Op: c.op, Vars: c.vars}
+			}
+			h.check([]Step{{Transport: tr, Query: c.text, ModelExt: "none", ExtKind: "knobs", Op: c.op, Vars: c.vars}})
+			h.check([]Step{mkS(c.text, "1"), mkS("", "1"), mkS("", "1.0")})
+			h.check([]Step{mkS(c.text, "2"), mkS("", "1")})
+			h.check([]Step{mkS("", "1"), mkS(c.text, "1.0"), mkS("", "2"), mkS("", "1")})
+		}
 	}
 	// bounded-exhaustive part: every history of length ≤ L over (2 texts + none) × all extension kinds
 	small := texts[:2]
@@ -522,12 +687,34 @@ func main() {
 		}
 		for vi := range vs {
 			for qi := 0; qi <= len(small); qi++ {
+				if depth == 2 && qi != 0 {
+					continue // thorough tier: the third step of an exhaustive history is a request without text (a look-up)
+				}
 				rec(append(append([]Step{}, prefix...), mk(run.Rand, small, vi, qi)), depth+1)
 			}
 		}
 	}
 	rec(nil, 0)
-	run.Note("exhaustive over extension kind × text choice up to history length %d (hash/junk details drawn from the PRNG)", L)
+	// the same for direct calls: every history of length ≤ 2 over Go-level extension kinds × {no text, no text + document, 2 texts, text + document}
+	var recD func(prefix []Step, depth int)
+	recD = func(prefix []Step, depth int) {
+		if depth > 0 {
+			h.check(prefix)
+		}
+		if depth == 2 {
+			return
+		}
+		for di := range dvs {
+			for _, c := range []struct {
+				q   int
+				doc bool
+			}{{0, false}, {0, true}, {1, false}, {2, false}, {1, true}} {
+				recD(append(append([]Step{}, prefix...), mkDirect(run.Rand, small, di, c.q, c.doc)), depth+1)
+			}
+		}
+	}
+	recD(nil, 0)
+	run.Note("exhaustive over extension kind × text choice up to history length %d (a third step carries no text; hash/junk details drawn from the PRNG); direct calls exhaustive up to length 2", L)
 	// random longer histories over all texts, biased towards lookups that follow registrations
 	n := run.Scale(2500, 60000)
 	for i := 0; i < n; i++ {
@@ -545,6 +732,19 @@ func main() {
 			qi := 0
 			if r.Chance(1, 2) {
 				qi = 1 + r.Intn(len(pool))
+			}
+			if j > 0 && r.Chance(1, 12) {
+				// a best-effort storage loses an entry (usually one that was registered)
+				hist = append(hist, Step{Transport: "EVICT", Evict: sha(hx.Pick(r, pool)), ModelExt: "none", ExtKind: "evict"})
+				continue
+			}
+			if r.Chance(1, 3) {
+				di := r.Intn(len(dvs))
+				if r.Chance(1, 2) {
+					di = hx.Pick(r, []int{0, 1})
+				}
+				hist = append(hist, mkDirect(r, pool, di, qi, r.Chance(1, 4)))
+				continue
 			}
 			hist = append(hist, mk(r, pool, vi, qi))
 		}
